@@ -230,6 +230,11 @@ func resemblesJSONArray(input []byte) bool {
 // JSON documents.
 // The merge patch returned follows the specification defined at http://tools.ietf.org/html/draft-ietf-appsawg-json-merge-patch-07
 func CreateMergePatch(originalJSON, modifiedJSON []byte) ([]byte, error) {
+	// the documents are decoded without validation further down
+	if !json.Valid(originalJSON) || !json.Valid(modifiedJSON) {
+		return nil, ErrBadJSONDoc
+	}
+
 	originalResemblesArray := resemblesJSONArray(originalJSON)
 	modifiedResemblesArray := resemblesJSONArray(modifiedJSON)
 
